@@ -355,6 +355,10 @@ func ExpandConds(out []Cond) []Cond {
 		if v, isNil, isE := out[i].ErrCheck(); isE && isNil {
 			if call, _ := TupleCall(v); call != nil {
 				out = append(out, ImpliedByNilError(call)...)
+				// a helper that only hands on the error of one call: that call succeeded
+				if ev := ForwardedError(call); ev != nil {
+					out = append(out, Cond{Op: token.EQL, X: ev, Y: ssa.NewConst(nil, ev.Type())})
+				}
 			}
 		}
 	}
@@ -1069,6 +1073,60 @@ func errorSource1(call *ssa.Call) *ssa.Call {
 			return nil
 		}
 		src = ic
+	}
+	return src
+}
+
+// ForwardedError: call invokes a helper (a function literal of the caller
+// included) whose error result is, on every return, the error of one and the
+// same inner call -- or nil where that error is known to be nil.  It returns
+// that inner error value (nil if the helper is not of this form): the
+// helper's result is nil exactly when the inner call's is.
+func ForwardedError(call *ssa.Call) ssa.Value {
+	h := Callee(&call.Call)
+	if h == nil || h.Blocks == nil || !IsHelper(call.Parent(), h) {
+		return nil
+	}
+	res := h.Signature.Results()
+	ei := -1
+	for i := 0; i < res.Len(); i++ {
+		if IsErrorType(res.At(i).Type()) {
+			ei = i
+		}
+	}
+	if ei < 0 {
+		return nil
+	}
+	var src ssa.Value
+	var nilRets []*ssa.Return
+	for _, r := range Returns(h) {
+		rv := RetVals(r)
+		if ei >= len(rv) {
+			return nil
+		}
+		e := Origin(rv[ei])
+		if IsNilConst(e) {
+			nilRets = append(nilRets, r)
+			continue
+		}
+		if ic, _ := TupleCall(e); ic == nil || (src != nil && src != e) {
+			return nil
+		}
+		src = e
+	}
+	if src == nil {
+		return nil
+	}
+	for _, r := range nilRets {
+		ok := false
+		for _, cd := range FactsAt(r) {
+			if v, isNil, isE := cd.ErrCheck(); isE && isNil && Origin(v) == src {
+				ok = true
+			}
+		}
+		if !ok {
+			return nil
+		}
 	}
 	return src
 }
